@@ -53,7 +53,13 @@ pub fn gen_x(rng: &mut Rng, mode: &str, flavour: &str, thorough: bool) -> (usize
       }
     }
     _ => {
+      if f.rdv {
+        return (0, timed_park(rng, f, 0), "timed-park");
+      }
       let mut fams: Vec<&'static str> = vec!["soak", "soak"];
+      if !f.asyn {
+        fams.extend(["timed-park", "timed-park"]);
+      }
       if f.r_clone && !f.rdv {
         fams.extend(["waiters-recv", "waiters-recv"]);
       }
@@ -62,13 +68,20 @@ pub fn gen_x(rng: &mut Rng, mode: &str, flavour: &str, thorough: bool) -> (usize
       }
       match *rng.pick(&fams) {
         "waiters-recv" => {
-          let cap = *rng.pick(SMALL_CAPS);
+          // (sizes: the history-level engines enumerate the orders in which k parked operations take effect — the
+          // waiter-queue engine of the bounded mpmc needs seconds per case from 4 parked receivers on — so the threaded
+          // families stay at k ≤ 3; capacities 3,5,6,7 with k > cap waiters are reached by the manual-poll families)
+          let cap = *rng.pick(&[1usize, 1, 2, 2]);
           (cap, waiters_recv(rng, f, cap), "waiters-recv")
         }
         "waiters-send" => {
           // k parked senders can take effect in k! orders: the linearizability search stays cheap up to ~4 of them
-          let cap = *rng.pick(&[1usize, 2, 3, 3]);
+          let cap = *rng.pick(&[1usize, 1, 2, 2]);
           (cap, waiters_send(rng, f, cap), "waiters-send")
+        }
+        "timed-park" => {
+          let cap = *rng.pick(&[1usize, 1, 2, 2, 3]);
+          (cap, timed_park(rng, f, cap), "timed-park")
         }
         "contend" => {
           let cap = *rng.pick(&[1usize, 2, 2, 3, 3, 5]);
@@ -94,11 +107,44 @@ fn vals(next_v: &mut u32, k: usize) -> Vec<u32> {
     .collect()
 }
 
+/// The consumer parks in the TIMED receive on an empty channel (it is thread 1, spawned first); the producer sends
+/// cap+1 items: the first wakes the consumer, the rest fill the ring, the last one parks the producer — which only the
+/// consumer's wake-path `notify_senders` releases. The consumer does little or nothing afterwards, so a producer left
+/// parked with space available stays visible (deadlock + `blocked-with-space-available`).
+fn timed_park(rng: &mut Rng, f: Fl, cap: usize) -> Vec<Vec<Op>> {
+  let mut next_v = 1u32;
+  let mut c = vec![op(&["recv_timeout", "r0"])];
+  match rng.below(10) {
+    0..=3 => {}
+    4..=5 => c.push(op(&["len", "r0"])),
+    6..=7 => c.push(op(&["try_recv", "r0"])),
+    _ => c.push(op(&["recv_timeout", "r0"])),
+  }
+  if rng.chance(40) {
+    c.push(op(&["drop", "r0"]));
+  }
+  let mut p = Vec::new();
+  let n = if f.rdv || f.unbounded { rng.range(1, 2) } else { cap + 1 };
+  if f.batch && !f.spmc && rng.chance(25) {
+    let vs = vals(&mut next_v, n);
+    p.push(op(&[*rng.pick(&["send_batch", "send_batch_mut"]), "s0", &arg_list(&vs)]));
+  } else {
+    for _ in 0..n {
+      let v = vals(&mut next_v, 1);
+      p.push(op(&["send", "s0", &v[0].to_string()]));
+    }
+  }
+  if rng.chance(60) {
+    p.push(op(&["drop", "s0"]));
+  }
+  vec![Vec::new(), c, p]
+}
+
 /// k > cap receivers (clones) parked in a blocking receive; the sender moves cap+1 items with `try_send*`,
 /// probes, sends what is needed for everybody, and drops (so every receiver returns).
 fn waiters_recv(rng: &mut Rng, f: Fl, cap: usize) -> Vec<Vec<Op>> {
-  let c = if f.unbounded { rng.range(1, 3) } else { cap };
-  let k = (c + rng.range(1, 2)).min(9);
+  let c = if f.unbounded { rng.range(1, 2) } else { cap };
+  let k = (c + rng.range(1, 2)).min(3);
   let mut setup = Vec::new();
   for i in 1..k {
     setup.push(op(&["clone", "r0", &format!("r{}", i)]));
@@ -153,7 +199,7 @@ fn waiters_recv(rng: &mut Rng, f: Fl, cap: usize) -> Vec<Vec<Op>> {
 /// the channel is full; k > cap senders (clones) park in a blocking send; the receiver probes, takes items out with
 /// non-blocking forms first, then drains to Disconnected.
 fn waiters_send(rng: &mut Rng, f: Fl, cap: usize) -> Vec<Vec<Op>> {
-  let k = (cap + rng.range(1, 2)).min(4);
+  let k = (cap + rng.range(1, 2)).min(3);
   let mut next_v = 1u32;
   let mut setup = Vec::new();
   for i in 1..k {
